@@ -258,16 +258,62 @@ theorem stripSuffixes_one' (ss : List Str) (hpw : ss.Pairwise SuffIncomp) (body 
       simp only [stripSuffixes, isSuffixOf_false hno]
       exact ih hpw'.2 hin hb'
 
+/-- the same for a suffix list that may repeat an entry (`Species.from_formula(…, phases=("(aq)",))` passes `("(aq)", "(aq)")`):
+    only DISTINCT entries must be incomparable -/
+theorem stripSuffixes_one'' (ss : List Str) (hinc : ∀ a ∈ ss, ∀ b ∈ ss, a ≠ b → ¬ a <:+ b) (body sfx : Str)
+    (hmem : sfx ∈ ss) (hb : ∀ s ∈ ss, ¬ s <:+ body) :
+    stripSuffixes ss (body ++ sfx) = ([sfx], body) := by
+  induction ss with
+  | nil => simp at hmem
+  | cons s ss ih =>
+    have hb' : ∀ t ∈ ss, ¬ t <:+ body := fun t ht => hb t (by simp [ht])
+    have hinc' : ∀ a ∈ ss, ∀ b ∈ ss, a ≠ b → ¬ a <:+ b := fun a ha b hb2 => hinc a (by simp [ha]) b (by simp [hb2])
+    by_cases hs : s = sfx
+    · subst hs
+      have hlen : s.length ≠ 0 := by
+        intro h0
+        have : s = [] := List.length_eq_zero_iff.mp h0
+        exact hb s (by simp) (by rw [this]; exact List.nil_suffix)
+      have hsuf : s.isSuffixOf (body ++ s) = true := List.isSuffixOf_iff_suffix.mpr (List.suffix_append body s)
+      simp only [stripSuffixes, hsuf, if_true, hlen, if_false]
+      have : List.take ((body ++ s).length - s.length) (body ++ s) = body := by simp
+      rw [this, stripSuffixes_none' ss body hb']
+    · have hin : sfx ∈ ss := by
+        rcases List.mem_cons.mp hmem with h | h
+        · exact absurd h.symm hs
+        · exact h
+      have hno : ¬ s <:+ body ++ sfx := by
+        intro h
+        rcases List.suffix_or_suffix_of_suffix h (List.suffix_append body sfx) with h2 | h2
+        · exact hinc s (by simp) sfx (by simp [hin]) hs h2
+        · exact hinc sfx (by simp [hin]) s (by simp) (fun e => hs e.symm) h2
+      simp only [stripSuffixes, isSuffixOf_false hno]
+      exact ih hinc' hin hb'
+
+/-- a suffix list `_formula_to_format` / `formula_to_composition` may be called with for the formula `f`: entries from the default
+    vocabulary `(s) (l) (g) (aq)` (any order, repeats allowed) containing the suffix `f` is written with -/
+structure SfxOK (sfx : List Str) (f : Formula) : Prop where
+  sub : ∀ s ∈ sfx, s ∈ suffixesL
+  mem : ∀ s, f.suffix = some s → s ∈ sfx
+
+theorem suffixes_distinct_incomp' : ∀ a ∈ suffixesL, ∀ b ∈ suffixesL, a ≠ b → ¬ a <:+ b := by decide
+
+theorem SfxOK.inc {sfx : List Str} {f : Formula} (h : SfxOK sfx f) : ∀ a ∈ sfx, ∀ b ∈ sfx, a ≠ b → ¬ a <:+ b :=
+  fun a ha b hb => suffixes_distinct_incomp' a (h.sub a ha) b (h.sub b hb)
+
+theorem sfxOK_default (f : Formula) (hd : f.WFd) : SfxOK suffixesL f := ⟨fun _ h => h, hd.suffix⟩
+
 def suffixList : Option Str → List Str
   | none => []
   | some s => [s]
 
 /-- `_formula_to_parts` on the rendering of a well-formed formula: stoichiometry, charge text, exactly the written
     prefixes and exactly the written suffix -/
-theorem formulaToParts_render' (f : Formula) (h : f.WFd) :
-    formulaToParts prefixesL suffixesL f.render
+theorem formulaToParts_render' (f : Formula) (h : f.WFd) (sfxs : List Str) (hok : SfxOK sfxs f) :
+    formulaToParts prefixesL sfxs f.render
       = .ok ⟨f.renderStoich, f.charge.map Charge.render, f.prefixes, suffixList f.suffix⟩ := by
-  have hsfx := noSuffixEnd_of_wf f h
+  have hsfx : ∀ s ∈ sfxs, ¬ s <:+ f.renderStoich ++ renderCharge f.charge :=
+    fun s hs => noSuffixEnd_of_wf f h s (hok.sub s hs)
   let body := f.renderStoich ++ renderCharge f.charge
   let sfx : Str := renderSuffix f.suffix
   have hrender : f.render = f.prefixes.flatten ++ (body ++ sfx) := by
@@ -276,16 +322,16 @@ theorem formulaToParts_render' (f : Formula) (h : f.WFd) :
   have he' : body ++ sfx = c :: rest := by simpa [body, List.append_assoc] using he
   have hstrip := stripPrefixes_sublist prefixesL prefixes_incomparable f.prefixes h.prefixes (body ++ sfx)
     (fun p hp => by rw [he']; exact prefix_not_start p hp c rest hc)
-  have hsuff : stripSuffixes suffixesL (body ++ sfx) = (suffixList f.suffix, body) := by
+  have hsuff : stripSuffixes sfxs (body ++ sfx) = (suffixList f.suffix, body) := by
     cases hs : f.suffix with
     | none =>
       have : sfx = [] := by simp [sfx, hs, renderSuffix]
       rw [this, List.append_nil]
-      exact stripSuffixes_none' suffixesL body hsfx
+      exact stripSuffixes_none' sfxs body hsfx
     | some s =>
       have : sfx = s := by simp [sfx, hs, renderSuffix]
       rw [this]
-      exact stripSuffixes_one' suffixesL suffixes_incomparable body s (h.suffix s hs) hsfx
+      exact stripSuffixes_one'' sfxs hok.inc body s (hok.mem s hs) hsfx
   have hcf : ChargeFree f.renderStoich := renderParts_chargeFree f.sep f.parts h.parts
   have := charge_cascade f.renderStoich hcf f.charge h.charge f.prefixes (suffixList f.suffix)
   have hrev : (suffixList f.suffix).reverse = suffixList f.suffix := by cases f.suffix <;> rfl
@@ -398,8 +444,8 @@ theorem fmtRest_spec {F : Fmt} {P : Pres} {ok : Br → Bool} (hF : FmtSpec F P o
     simp [andThen, presRest, hF.infx]
 
 theorem formulaToFormat_render {F : Fmt} {P : Pres} {ok : Br → Bool} (hF : FmtSpec F P ok) (f : Formula) (h : f.WF)
-    (hb : ∀ q ∈ f.parts, termsBrAll ok q.terms = true) :
-    formulaToFormat F suffixesL f.render = .ok (present P f) := by
+    (hb : ∀ q ∈ f.parts, termsBrAll ok q.terms = true) (sfxs : List Str) (hok : SfxOK sfxs f) :
+    formulaToFormat F sfxs f.render = .ok (present P f) := by
   have hd := Formula.wfd f h
   obtain ⟨p, ps, hp, hn⟩ := hd.first
   have hsplit := split_stoich f.sep p ps (fun q hq => hd.parts q (by rw [hp]; exact hq))
@@ -411,7 +457,7 @@ theorem formulaToFormat_render {F : Fmt} {P : Pres} {ok : Br → Bool} (hF : Fmt
   have hrest := fmtRest_spec hF ps (fun q hq => hd.parts q (by simp [hp, hq])) (fun q hq => hb q (by simp [hp, hq]))
   have hpre := mapPrefixes_spec hF f.prefixes (fun q hq => hd.prefixes.subset hq)
   unfold formulaToFormat
-  rw [hF.keys, formulaToParts_render' f hd]
+  rw [hF.keys, formulaToParts_render' f hd sfxs hok]
   simp only [hstoich, hsplit, hpr, hfirst, hrest, andThen_some_some]
   have hchg : fmtCharge F (presTerms P p.terms ++ presRest P ps) (f.charge.map Charge.render)
       = .ok ((presTerms P p.terms ++ presRest P ps) ++ presCharge P f.charge) := by
